@@ -242,3 +242,79 @@ h!(q_de_unique, {
     kani::cover!(ok);
     kani::cover!(!ok);
 });
+
+// ---- deserialize_in_place (what serde's derive uses for fields): same contract as assignment of a fresh handle
+static mut QD_DROPS: [u8; 4] = [0; 4];
+struct Qd(u8, u8); // (ledger id, value)
+impl Drop for Qd {
+    fn drop(&mut self) {
+        unsafe { QD_DROPS[self.0 as usize] += 1 };
+    }
+}
+impl<'de> Deserialize<'de> for Qd {
+    fn deserialize<D: Deserializer<'de>>(_d: D) -> Result<Qd, D::Error> {
+        unsafe {
+            DE_CALLS += 1;
+            match DE_RESULT {
+                Ok(v) => Ok(Qd(1, v)),
+                Err(e) => Err(<D::Error as serde::de::Error>::invalid_length(e as usize, &"a Qd")),
+            }
+        }
+    }
+}
+h!(q_de_in_place_arc, {
+    let ok: bool = kani::any();
+    let shared: bool = kani::any();
+    let v: u8 = kani::any();
+    kani::assume(v != 254);
+    unsafe { DE_RESULT = if ok { Ok(v) } else { Err(v) } };
+    let mut place = Arc::new(Qd(0, 7));
+    let other = if shared { Some(place.clone()) } else { None };
+    let old = Arc::as_ptr(&place);
+    let r = <Arc<Qd> as Deserialize>::deserialize_in_place(De(0), &mut place);
+    match r {
+        Ok(()) => {
+            assert!(ok && place.1 == v && place.0 == 1, "place does not hold the deserialised value");
+            assert!(Arc::count(&place) == 1, "deserialised handle is not a sole owner");
+            match &other {
+                Some(o) => {
+                    assert!(Arc::count(o) == 1, "the old allocation did not lose exactly the owner that was overwritten");
+                    assert!(o.1 == 7 && unsafe { QD_DROPS[0] } == 0);
+                }
+                None => assert!(unsafe { QD_DROPS[0] } == 1, "the overwritten sole-owned value was not destroyed exactly once"),
+            }
+        }
+        Err(e) => {
+            assert!(!ok && e == SerErr(v), "error was not passed through unchanged");
+            assert!(Arc::as_ptr(&place) == old && place.1 == 7 && unsafe { QD_DROPS[0] } == 0, "a failed in-place deserialisation changed or destroyed the old value");
+            assert!(Arc::count(&place) == if shared { 2 } else { 1 });
+        }
+    }
+    drop(other);
+    drop(place);
+    assert!(unsafe { QD_DROPS[0] } == 1 && n_live() == 0, "old value not destroyed exactly once / something leaked");
+    kani::cover!(ok && shared);
+    kani::cover!(!ok);
+});
+h!(q_de_in_place_unique, {
+    let ok: bool = kani::any();
+    let v: u8 = kani::any();
+    kani::assume(v != 254);
+    unsafe { DE_RESULT = if ok { Ok(v) } else { Err(v) } };
+    let mut place = UniqueArc::new(Qd(0, 7));
+    let r = <UniqueArc<Qd> as Deserialize>::deserialize_in_place(De(0), &mut place);
+    match r {
+        Ok(()) => {
+            assert!(ok && place.1 == v, "place does not hold the deserialised value");
+            assert!(unsafe { QD_DROPS[0] } == 1, "the overwritten value was not destroyed exactly once");
+        }
+        Err(e) => {
+            assert!(!ok && e == SerErr(v));
+            assert!(place.1 == 7 && unsafe { QD_DROPS[0] } == 0, "a failed in-place deserialisation destroyed the value the handle still owns");
+        }
+    }
+    drop(place);
+    assert!(unsafe { QD_DROPS[0] } == 1 && unsafe { QD_DROPS[1] } == if ok { 1 } else { 0 } && n_live() == 0);
+    kani::cover!(ok);
+    kani::cover!(!ok);
+});
